@@ -1,5 +1,5 @@
 #!/bin/sh
-# Regenerate the grouping-mode translated parts of the Coq model (tools/py2v_part: coq/Gen/PartitionGen.v
+# Regenerate the grouping-mode translated parts of the Coq model (tools/py2v_part: coq/Gen/PartitionGen.v, coq/Gen/CollapseGen.v
 # from biom/table.py) from the source tree under test (BIOM_REPO, default /repo).
 # Exit code 2 = the translator refused the source (the tie is broken); nothing is written then.
 here="$(cd "$(dirname "$0")/.." && pwd)"
